@@ -956,6 +956,8 @@ def r_invmap(P, R):
         swap_order_maps(P, R)
     if prop in ('C14',):
         add_var_maps(P, R)
+        # the four views of the order must agree after a swap as well
+        swap_order_maps(P, R)
         total += 1
     floor = {'C02': 6, 'C06': 1, 'C07': 4, 'C14': 2}.get(prop, 0)
     R.floor(f'R-INVMAP storing paths for {prop}', total, floor)
